@@ -494,7 +494,12 @@ def protoStep (st : St) (held : Held) (ts : List String) : State × String :=
     | some k, some b => if b.isEmpty then bad else protoOp (.inmsg k false) "-"
     | _, _ => bad
   | [op, i] =>
-    if op = "inbig" ∨ op = "inclose" ∨ op = "inreset" then
+    if op = "inbig" then
+      -- an oversized length prefix is written like a frame (not inside a held one); the stream then fails
+      match idx? 'i' i with
+      | some k => protoOp (.inmsg k false) "-"
+      | none => bad
+    else if op = "inclose" ∨ op = "inreset" then
       match idx? 'i' i with
       | some k => protoOp (.inend k) "-"
       | none => bad
